@@ -29,6 +29,12 @@ func (m *actionMethod) Name() string {
 	return m.Method.Name()
 }
 
+// Variadic returns whether the last parameter of the method is variadic. Its
+// type in Params is the slice type, and the call must spread the argument.
+func (m *actionMethod) Variadic() bool {
+	return m.Method.Type().(*gotypes.Signature).Variadic()
+}
+
 type generated string
 
 const (
